@@ -322,7 +322,7 @@ class SimPipeline:
                         return make
                     fr = make()
                     if b['slow']:
-                        w.sleep(run.work_ms / 1000)     # a slow producer: the frame takes (virtual) time to make
+                        w.sleep(d.get('work_ms', run.work_ms) / 1000)     # a slow producer: the frame takes (virtual) time to make
                     return fr
                 st = self_.mq.send_state
                 seen = {t: tok(fr) for t, fr in frames.items()}
@@ -334,7 +334,7 @@ class SimPipeline:
                 if xat >= 0 and qs0 and min(qs0) >= xat:
                     end()
                 if b['slow']:
-                    w.sleep(run.work_ms / 1000)
+                    w.sleep(d.get('work_ms', run.work_ms) / 1000)
                 if not d['nout']:
                     return None
                 qs = [v[1] for v in seen.values() if v is not None]
@@ -430,8 +430,9 @@ class SimPipeline:
     def kill(self, f, keep=True):
         self.world.trace.append(('kill', f, bool(keep)))
         self.world.hard_kill(f, keep_inflight=keep)
-        if not self.topo.filters[f]['srcs'] and not any(e[0] == 'pub' and e[1].split('/')[0] == f for e in self.world.events):
-            self.oseq[f] = 0           # an origin killed before it ever published: it has not visibly produced anything
+        if not self.topo.filters[f]['srcs'] and not any(e[0] == 'pub' and e[1].split('/')[0] == f and simzmq.hdr(e[3])[1].get('mid', -1) >= 0
+                                                        for e in self.world.events):
+            self.oseq[f] = 0           # an origin killed before it ever published a frame: it has not visibly produced anything (OFP!Kill)
         self.filters.pop(f, None)
         self.stalled.discard(f)
         if self.rec is not None:
